@@ -15,6 +15,14 @@ pub fn some_slots(m: &PilotMsg) -> Vec<usize> {
     }
 }
 
+/// indices of the `None` slots of a vec(opt(..)) message
+pub fn vec_none_slots(m: &PilotMsg) -> Vec<usize> {
+    match &m.tree {
+        Some(Val::Vec(items)) => items.iter().enumerate().filter(|(_, v)| matches!(v, Val::Opt(None))).map(|(i, _)| i).collect(),
+        _ => vec![],
+    }
+}
+
 pub fn pick(v: &[usize], all: bool) -> Vec<usize> {
     if all || v.len() <= 3 {
         return v.to_vec();
@@ -93,6 +101,24 @@ pub fn catalogue(w: &World, tier: &str, seed: u64, reps: usize) -> Vec<FaultCase
                                     let ms: Vec<TreeMut> = (0..4).map(|r| TreeMut { path: vec![g, r, byte], op: MutOp::FlipBit }).collect();
                                     push(one(c, m.to, &m.label, m.k, What::TreeMulti(ms), s ^ ((g * 131 + byte) as u64)), format!("row-byte:{bname}:{pc}"), &m.label, vec![m.to], false, None);
                                 }
+                            }
+                        }
+                    }
+                    "masked inputs" if m.to != cfg.p_eval && vec_none_slots(m).len() > 0 => {
+                        // a claim for a register that is not an input wire: every garbler must refuse it
+                        let nones = vec_none_slots(m);
+                        for (pi, i) in [nones[0], nones[nones.len() - 1]].into_iter().enumerate() {
+                            for (name, op) in [("true", MutOp::NoneToSomeOne), ("false", MutOp::NoneToSome)] {
+                                // consistent towards every receiver (passes the verified broadcast)
+                                let plan = FaultPlan { corrupt: c, actions: vec![FaultAction { target: Target { from: c, to: None, label: m.label.clone(), k: Some(m.k) }, what: What::Tree(TreeMut { path: vec![i], op: op.clone() }) }], crash: None, seed: s ^ (i as u64 * 7 + pi as u64) };
+                                push(plan, format!("masked-input-claim-{name}-for-non-input-register"), &m.label, vec![m.to], false, None);
+                            }
+                        }
+                        if n >= 3 {
+                            let slots = some_slots(m);
+                            for (pi, i) in pick(&slots, thorough).into_iter().enumerate() {
+                                let pc = if pi == 0 { "first" } else { "later" };
+                                push(one(c, m.to, &m.label, m.k, What::Tree(TreeMut { path: vec![i, 0], op: MutOp::FlipBit }), s ^ i as u64), format!("equivocate-masked-input:{pc}"), &m.label, vec![m.to], false, None);
                             }
                         }
                     }
